@@ -1,11 +1,12 @@
 // ---- appended by /verif (engine K): apply-cache layer contracts (property C06) ----
 //
 // Real `DMApplyCache` (entries with unions / UnsafeCell / spin lock) over
-// `oxidd_test_utils::edge::{DummyManager, DummyEdge}`.  The hash function is ADVERSARIAL: `finish()`
-// returns a fresh value chosen by Kani at every call, so every bucket placement (total collision,
-// different buckets, even "the same key hashes differently the second time") is explored; the
-// soundness clauses below must hold for all of them, because `get` may only ever answer from the
-// full key stored in the entry it looks at.
+// `oxidd_test_utils::edge::{DummyManager, DummyEdge}`.  The hash function is ADVERSARIAL:
+//  * key-exactness harnesses use `SeqHasher`: the hash of the i-th hashed key is a value chosen by
+//    Kani, constrained only by the `Hash`/`Hasher` contract "equal keys have equal hashes"
+//    (so every bucket placement of distinct keys is explored: total collision, different buckets);
+//  * all other harnesses use `SymHasher`, whose `finish()` returns a fresh unconstrained value at
+//    every call (their postconditions must hold whatever bucket is probed).
 #[cfg(kani)]
 mod verif_cache {
     use super::*;
@@ -20,6 +21,48 @@ mod verif_cache {
         }
         fn write(&mut self, _bytes: &[u8]) {}
     }
+
+    /// Hasher whose i-th result (in call order; the cache hashes exactly once per add/get) is
+    /// `SEQ[i]`, set by the harness to values chosen by Kani.
+    #[derive(Default)]
+    struct SeqHasher;
+    static SEQ: [core::sync::atomic::AtomicU64; 3] = [
+        core::sync::atomic::AtomicU64::new(0),
+        core::sync::atomic::AtomicU64::new(0),
+        core::sync::atomic::AtomicU64::new(0),
+    ];
+    static SEQ_CALLS: core::sync::atomic::AtomicUsize = core::sync::atomic::AtomicUsize::new(0);
+    impl Hasher for SeqHasher {
+        fn finish(&self) -> u64 {
+            use core::sync::atomic::Ordering::Relaxed;
+            let i = SEQ_CALLS.fetch_add(1, Relaxed);
+            assert!(i < 3, "harness: at most three keys are hashed");
+            if i == 0 {
+                SEQ[0].load(Relaxed)
+            } else if i == 1 {
+                SEQ[1].load(Relaxed)
+            } else {
+                SEQ[2].load(Relaxed)
+            }
+        }
+        fn write(&mut self, _bytes: &[u8]) {}
+    }
+    /// choose the hashes of k1, k2, k3: arbitrary, but equal keys get equal hashes
+    fn choose_hashes<const A: usize, const N: usize>(k1: &Key<A, N>, k2: &Key<A, N>, k3: &Key<A, N>) {
+        use core::sync::atomic::Ordering::Relaxed;
+        let h: [u64; 3] = kani::any();
+        kani::assume(!key_eq(k1, k2) || h[0] == h[1]);
+        kani::assume(!key_eq(k1, k3) || h[0] == h[2]);
+        kani::assume(!key_eq(k2, k3) || h[1] == h[2]);
+        kani::cover!(key_eq(k1, k2) && key_eq(k2, k3) && h[0] == h[1] && h[1] == h[2], "assumed region: all keys equal");
+        kani::cover!(!key_eq(k1, k2) && h[0] == h[1], "assumed region: distinct keys colliding");
+        kani::cover!(!key_eq(k1, k2) && (h[0] & 1) != (h[1] & 1), "assumed region: distinct keys in different buckets");
+        SEQ[0].store(h[0], Relaxed);
+        SEQ[1].store(h[1], Relaxed);
+        SEQ[2].store(h[2], Relaxed);
+        SEQ_CALLS.store(0, Relaxed);
+    }
+    type SeqCache<const ENTRY_CAP: usize> = DMApplyCache<DummyManager, u8, SeqHasher, ENTRY_CAP>;
 
     /// entry capacity used by the key-exactness harnesses: 3 edge operands + 2 numeric operands
     /// + 1 edge value + 1 numeric value
@@ -87,13 +130,14 @@ mod verif_cache {
     /// C06: "A result memoised for one operator, operand tuple ... is never served for another":
     ///   Some(v,w)  ==>  k3 equals the key of the most recent add of an equal key, and (v,w) is
     ///   exactly that add's value (same edge, same number).
-    /// Holds for every hash placement; BUCKETS = 1: every key collides; BUCKETS = 2: both cases.
+    /// Holds for every lawful hash placement; BUCKETS = 1: every key collides; BUCKETS = 2: both cases.
     fn key_exact_extended<const A: usize, const N: usize, const BUCKETS: usize>() {
         let m = DummyManager;
         let es = [DummyEdge::new(), DummyEdge::new(), DummyEdge::new()];
         // SAFETY: no node is ever deleted in this harness
-        let cache: Cache<EC> = unsafe { DMApplyCache::with_capacity(BUCKETS) };
+        let cache: SeqCache<EC> = unsafe { DMApplyCache::with_capacity(BUCKETS) };
         let (k1, k2, k3) = (any_key::<A, N>(), any_key::<A, N>(), any_key::<A, N>());
+        choose_hashes(&k1, &k2, &k3);
         let (v1, v2) = (any_val(), any_val());
         let (w1, w2): (u32, u32) = (kani::any(), kani::any());
         let (o1, o2, o3) = (ops(&es, &k1), ops(&es, &k2), ops(&es, &k3));
@@ -114,7 +158,7 @@ mod verif_cache {
         }
         kani::cover!(hit && key_eq(&k3, &k2), "hit on the most recent entry (assumed index region reachable)");
         kani::cover!(BUCKETS == 1 || (hit && !key_eq(&k3, &k2)), "BUCKETS > 1: hit on the older entry (it survived in the other bucket)");
-        kani::cover!(BUCKETS == 1 || (!hit && key_eq(&k3, &k2)), "BUCKETS > 1: miss although the key was just added (other bucket probed)");
+        kani::cover!(!hit && !key_eq(&k3, &k2) && key_eq(&k3, &k1), "older entry evicted by a colliding key: miss");
         kani::cover!(!hit && k3.op != k2.op, "miss on a different operator");
         release(&m, es);
         core::mem::forget(cache);
@@ -124,8 +168,9 @@ mod verif_cache {
     fn key_exact_shorthand<const A: usize, const BUCKETS: usize>() {
         let m = DummyManager;
         let es = [DummyEdge::new(), DummyEdge::new(), DummyEdge::new()];
-        let cache: Cache<4> = unsafe { DMApplyCache::with_capacity(BUCKETS) };
+        let cache: SeqCache<4> = unsafe { DMApplyCache::with_capacity(BUCKETS) };
         let (k1, k2, k3) = (any_key::<A, 0>(), any_key::<A, 0>(), any_key::<A, 0>());
+        choose_hashes(&k1, &k2, &k3);
         let (v1, v2) = (any_val(), any_val());
         let (o1, o2, o3) = (ops(&es, &k1), ops(&es, &k2), ops(&es, &k3));
 
@@ -145,7 +190,7 @@ mod verif_cache {
         }
         kani::cover!(hit && key_eq(&k3, &k2), "hit on the most recent entry (assumed index region reachable)");
         kani::cover!(BUCKETS == 1 || (hit && !key_eq(&k3, &k2)), "BUCKETS > 1: hit on the older entry (it survived in the other bucket)");
-        kani::cover!(BUCKETS == 1 || (!hit && key_eq(&k3, &k2)), "BUCKETS > 1: miss although the key was just added (other bucket probed)");
+        kani::cover!(!hit && !key_eq(&k3, &k2) && key_eq(&k3, &k1), "older entry evicted by a colliding key: miss");
         release(&m, es);
         core::mem::forget(cache);
     }
